@@ -38,7 +38,7 @@ func profileByName(name string) Profile {
 		p.Types = []int{0, 1, 2}
 	case "faults":
 		p.PFault, p.InvokeFaults, p.PCallback = 0.3, true, 0.4
-		p.PDigErr, p.POptional = 0.25, 0.35
+		p.PDigErr, p.POptional, p.PCbPanic = 0.25, 0.35, 0.15
 		p.PGap, p.PBackEdge, p.PInvalid = 0.03, 0.03, 0.02
 		p.Invokes = [2]int{4, 10}
 	case "reentrant":
